@@ -23,7 +23,10 @@ type RSAKey struct {
 	E    int
 }
 
-type RSAKeyJSON struct{ N, D string; E int }
+type RSAKeyJSON struct {
+	N, D string
+	E    int
+}
 
 func (k *RSAKey) JSON() RSAKeyJSON { return RSAKeyJSON{N: k.N.Text(16), D: k.D.Text(16), E: k.E} }
 func (j RSAKeyJSON) Key() *RSAKey {
@@ -135,35 +138,35 @@ func (s *Store) SetSalt(id []byte, salt int64) {
 
 // Event is one observation of the server, in the order the server made it.
 type Event struct {
-	Seq     int    `json:"seq"`
-	Kind    string `json:"kind"` // conn-open announce plain enc item ack pong-sent sent conn-close violation hs-done hs-fail
-	Server  string `json:"server,omitempty"`
-	Conn    int    `json:"conn"`
-	MsgID   int64  `json:"msg_id,omitempty"`
-	SeqNo   int32  `json:"seq_no,omitempty"`
-	Salt    int64  `json:"salt,omitempty"`
-	Session int64  `json:"session,omitempty"`
-	Ctor    string `json:"ctor,omitempty"`
-	Len     int    `json:"len,omitempty"`
-	InCont  bool   `json:"in_container,omitempty"`
+	Seq     int     `json:"seq"`
+	Kind    string  `json:"kind"` // conn-open announce plain enc item ack pong-sent sent conn-close violation hs-done hs-fail
+	Server  string  `json:"server,omitempty"`
+	Conn    int     `json:"conn"`
+	MsgID   int64   `json:"msg_id,omitempty"`
+	SeqNo   int32   `json:"seq_no,omitempty"`
+	Salt    int64   `json:"salt,omitempty"`
+	Session int64   `json:"session,omitempty"`
+	Ctor    string  `json:"ctor,omitempty"`
+	Len     int     `json:"len,omitempty"`
+	InCont  bool    `json:"in_container,omitempty"`
 	IDs     []int64 `json:"ids,omitempty"`
-	Note    string `json:"note,omitempty"`
-	Body    string `json:"body,omitempty"` // hex, only when short
-	Padding int    `json:"padding,omitempty"`
-	TimeNs  int64  `json:"t_ns,omitempty"`
+	Note    string  `json:"note,omitempty"`
+	Body    string  `json:"body,omitempty"` // hex, only when short
+	Padding int     `json:"padding,omitempty"`
+	TimeNs  int64   `json:"t_ns,omitempty"`
 }
 
 // ---------- server ----------
 
 // HSParams are the values the server uses in one key exchange.
 type HSParams struct {
-	ServerNonce []byte // 16
-	P, Q        uint64 // primes, P < Q
-	PQPad8      bool   // send pq left-padded to 8 bytes (else minimal length)
-	G           int
-	A           []byte // server DH secret (big-endian)
-	ServerTime  int32
-	PadSeed     uint64
+	ServerNonce       []byte // 16
+	P, Q              uint64 // primes, P < Q
+	PQPad8            bool   // send pq left-padded to 8 bytes (else minimal length)
+	G                 int
+	A                 []byte // server DH secret (big-endian)
+	ServerTime        int32
+	PadSeed           uint64
 	ExtraFingerprints []int64 // offered before the real one
 }
 
@@ -195,30 +198,30 @@ type Server struct {
 	Key   *RSAKey
 	Store *Store
 
-	mu       sync.Mutex
-	seq      *int
-	seqMu    *sync.Mutex
-	events   *[]Event
-	conns    []*Conn
-	lastMsg  int64
+	mu      sync.Mutex
+	seq     *int
+	seqMu   *sync.Mutex
+	events  *[]Event
+	conns   []*Conn
+	lastMsg int64
 	// knobs
-	NextHS     func() HSParams
-	Fault      *Fault
-	AutoPong   bool
-	OnRequest  func(c *Conn, r *Request)  // API request (content-related, not ack/ping/container)
-	OnEvent    func(e Event)
+	NextHS    func() HSParams
+	Fault     *Fault
+	AutoPong  bool
+	OnRequest func(c *Conn, r *Request) // API request (content-related, not ack/ping/container)
+	OnEvent   func(e Event)
 	// SaltOK decides whether a message's salt is acceptable; default: equals the stored salt.
 	SaltOK func(c *Conn, env ref.Envelope) bool
 	HS     []*HSObs
 }
 
 type Request struct {
-	MsgID   int64
-	SeqNo   int32
-	Salt    int64
-	Session int64
-	Body    []byte
-	Ctor    uint32
+	MsgID       int64
+	SeqNo       int32
+	Salt        int64
+	Session     int64
+	Body        []byte
+	Ctor        uint32
 	InContainer bool
 }
 
@@ -317,9 +320,9 @@ type Conn struct {
 	closed  bool
 
 	// handshake state
-	hs      *HSObs
-	hsp     HSParams
-	a       *big.Int
+	hs              *HSObs
+	hsp             HSParams
+	a               *big.Int
 	lastClientMsgID int64
 }
 
@@ -378,6 +381,9 @@ func (c *Conn) WriteFrame(b []byte) error {
 func (c *Conn) serve() {
 	defer func() {
 		c.S.log(Event{Kind: "conn-close", Conn: c.ID})
+		c.wmu.Lock()
+		c.closed = true
+		c.wmu.Unlock()
 		c.c.Close()
 	}()
 	var first [1]byte
@@ -890,6 +896,28 @@ func (c *Conn) SendRawEncrypted(msgID int64, seqNo int32, body []byte) {
 	}
 	c.S.log(Event{Kind: "sent", Conn: c.ID, MsgID: msgID, SeqNo: seqNo, Len: len(body), Note: "raw"})
 	c.WriteFrame(c.seal(msgID, seqNo, body))
+}
+
+// LogNote records a scenario-level observation in the server's event sequence.
+func (s *Server) LogNote(kind string, c *Conn, msgID int64, note string) {
+	id := 0
+	if c != nil {
+		id = c.ID
+	}
+	s.log(Event{Kind: kind, Conn: id, MsgID: msgID, Note: note})
+}
+
+// SetSalt switches the salt the server accepts for this connection's key (salt rotation).
+func (c *Conn) SetSalt(salt int64) {
+	if c.key != nil {
+		c.S.Store.SetSalt(ref.AuthKeyID(c.key.AuthKey), salt)
+	}
+}
+
+func (c *Conn) Closed() bool {
+	c.wmu.Lock()
+	defer c.wmu.Unlock()
+	return c.closed
 }
 
 // Adopt makes the connection usable for sending before the client has spoken (resumed sessions are learnt from the first message).
